@@ -5,6 +5,8 @@
 //   scan           line: hex(text)                            -> <n>:<hex c1>,<hex c2>,...
 //   fmtcase        line: hex(src)                             -> Coq term: statements ## number table | REJECT | GLUEERR
 //   stmtpos        line: hex(src)                             -> sl:el,sl:el,... (statement pair spans) | REJECT
+//   cpairs         line: hex(src)   first statement must be a bare list / record / do-block:
+//                  -> L|R|D <inner pairs> ## <commented items of the AST>   (see cpairs_line)
 //   dump-parens    (oneshot) needs_parens_in_binop for every (parent op, child op, side)
 //
 // Drivers.  `lib` mirrors blots-wasm/src/lib.rs::format_blots line by line (the wasm crate is a
@@ -31,6 +33,7 @@ pub fn dispatch(sub: &str, _rest: &[String], line: &str) -> Option<String> {
         "scan" => Some(scan_line(line)),
         "fmtcase" => Some(fmtcase_line(line)),
         "stmtpos" => Some(stmtpos_line(line)),
+        "cpairs" => Some(cpairs_line(line)),
         _ => None,
     }
 }
@@ -302,6 +305,107 @@ fn stmtpos_line(line: &str) -> String {
         }
     }
     format!("POS {}", out.join(","))
+}
+
+/// ATTACH stream: the inner pairs of a bare list / record / do-block statement as the grammar
+/// yields them, and the comment attachment pairs_to_expr_with_comments computes from them.
+///   pairs:  C:<hex comment> | I:<k>:<hex eol|->            (list_item / record_item k)
+///           S:<k>:<hex trailing|-> | X:<hex> (do_statement that is a comment) | T (return)
+///   items:  <hex lead>.<hex lead>...:<k>:<hex trailing|->  joined by ";"  (do-block: statements, then "|" and
+///           the return expression's item)
+fn cpairs_line(line: &str) -> String {
+    use blots_core::ast::Commented;
+    let src = match text_of(line) {
+        Some(s) => s,
+        None => return "BADUTF8".into(),
+    };
+    let pairs = match get_pairs(&src) {
+        Ok(p) => p,
+        Err(_) => return "REJECT".into(),
+    };
+    let stmt = match pairs.into_iter().find(|p| p.as_rule() == Rule::statement && p.clone().into_inner().next().is_some()) {
+        Some(s) => s,
+        None => return "EMPTY".into(),
+    };
+    let first = stmt.into_inner().next().unwrap();
+    if first.as_rule() != Rule::expression {
+        return "NOTBARE".into();
+    }
+    let mut inner = first.clone().into_inner();
+    let prim = match inner.next() {
+        Some(p) => p,
+        None => return "NOTBARE".into(),
+    };
+    if inner.next().is_some() {
+        return "NOTBARE".into();
+    }
+    let ast = match pairs_to_expr_with_comments(first.into_inner()) {
+        Ok(e) => e,
+        Err(_) => return "GLUEERR".into(),
+    };
+    let h = |s: &str| hex(s.as_bytes());
+    let opt = |o: Option<String>| o.map(|s| hex(s.as_bytes())).unwrap_or_else(|| "-".to_string());
+    fn item<T>(k: usize, c: &Commented<T>) -> String {
+        format!(
+            "{}:{}:{}",
+            c.leading.iter().map(|s| hex(s.as_bytes())).collect::<Vec<_>>().join("."),
+            k,
+            c.trailing.as_ref().map(|s| hex(s.as_bytes())).unwrap_or_else(|| "-".to_string())
+        )
+    }
+    let mut out: Vec<String> = Vec::new();
+    let mut k = 0usize;
+    match prim.as_rule() {
+        Rule::list | Rule::record => {
+            let tag = if prim.as_rule() == Rule::list { "L" } else { "R" };
+            for p in prim.into_inner() {
+                match p.as_rule() {
+                    Rule::comment => out.push(format!("C:{}", h(p.as_str()))),
+                    Rule::list_item | Rule::record_item => {
+                        let eol = p.into_inner().nth(1).map(|e| e.as_str().to_string());
+                        out.push(format!("I:{}:{}", k, opt(eol)));
+                        k += 1;
+                    }
+                    _ => out.push("?".into()),
+                }
+            }
+            let items: Vec<String> = match &ast.node {
+                Expr::List(items) => items.iter().enumerate().map(|(i, c)| item(i, c)).collect(),
+                Expr::Record(entries) => entries.iter().enumerate().map(|(i, c)| item(i, c)).collect(),
+                _ => return "NOTBARE".into(),
+            };
+            format!("{} {} ## {}", tag, out.join(","), items.join(";"))
+        }
+        Rule::do_block => {
+            for p in prim.into_inner() {
+                match p.as_rule() {
+                    Rule::comment => out.push(format!("C:{}", h(p.as_str()))),
+                    Rule::do_statement => {
+                        let mut di = p.into_inner();
+                        match di.next() {
+                            Some(f) if f.as_rule() == Rule::expression => {
+                                let tr = di.next().filter(|q| q.as_rule() == Rule::comment).map(|q| q.as_str().to_string());
+                                out.push(format!("S:{}:{}", k, opt(tr)));
+                                k += 1;
+                            }
+                            Some(f) => out.push(format!("X:{}", h(f.as_str()))),
+                            None => {}
+                        }
+                    }
+                    Rule::return_statement => out.push("T".into()),
+                    _ => out.push("?".into()),
+                }
+            }
+            match &ast.node {
+                Expr::DoBlock { statements, return_expr } => {
+                    let items: Vec<String> = statements.iter().enumerate().map(|(i, c)| item(i, c)).collect();
+                    format!("D {} ## {}|{}", out.join(","), items.join(";"), item(statements.len(), return_expr))
+                }
+                _ => "NOTBARE".into(),
+            }
+        }
+        _ => "NOTBARE".into(),
+    }
 }
 
 // ------------------------------------------------------------------ needs_parens_in_binop table
